@@ -105,11 +105,15 @@ func expect(cs *caseSpec) expectation {
 		e.label = "informational flag " + cs.cfg.Info
 	default:
 		e.kind = expNormal
-		switch cs.exitHow() {
-		case ExitCtrlC:
+		switch how := cs.exitHow(); {
+		case how == ExitCtrlC:
 			e.label = "normal exit by Ctrl+C"
-		case ExitOneShell:
-			e.label = "normal exit on completion of -one-shell"
+		case how == ExitInsertCtrlC:
+			e.label = "normal exit by Ctrl+C with a Ctrl+I insert in flight"
+		case how == ExitInsertCtrlD:
+			e.label = "normal exit by Ctrl+D with a Ctrl+I insert in flight"
+		case isOneShell(how):
+			e.label = oneShellLabel(how)
 		default:
 			e.label = "normal exit by Ctrl+D"
 		}
